@@ -94,6 +94,29 @@ def doneset(repo, chk):
         chk.ob('DONESET', cc, kinds[k][0], '%s is not consulted, so it is written before every consulted output' % k, not late,
                'a run killed after the consulted outputs of a page exist but before this write leaves a page that is skipped forever without its %s' % k,
                construct='kind ' + k)
+    # every branch of a kind's block really writes: a call that receives the kind's directory
+    for k in sorted(kinds):
+        for blk in kinds[k]:
+            def writes(stmts):
+                return any(isinstance(c, ast.Call) and any(isinstance(x, ast.Attribute) and x.attr == k for a in list(c.args) + [kw.value for kw in c.keywords] for x in ast.walk(a))
+                           for s_ in stmts for c in ast.walk(s_))
+            branches = [blk.body]
+            inner = [s_ for s_ in blk.body if isinstance(s_, ast.If) and s_.orelse]
+            if inner and len(blk.body) == 1:
+                branches = [inner[0].body, inner[0].orelse]
+            # a writer object constructed from the directory and then called counts for its branch
+            ok = True
+            for br in branches:
+                called = False
+                for s_ in br:
+                    for c in ast.walk(s_):
+                        if isinstance(c, ast.Call) and isinstance(c.func, ast.Name):
+                            made = cc.flow.resolve(c.func, c)
+                            if made is not c.func and writes([ast.Expr(value=made)]):
+                                called = True
+                direct = any(writes([s_]) for s_ in br if not isinstance(s_, ast.Assign))
+                ok = ok and (direct or called)
+            chk.ob('DONESET', cc, blk, 'every branch of the %s block performs a write into that directory' % k, ok, construct='writes ' + k)
     # every consulted name is a real output kind, and skipping requires the flag
     for c in sorted(consulted):
         chk.ob('DONESET', main, calls[0], 'consulted directory %s is an output kind that is written' % c, c in kinds, construct='consulted ' + c)
@@ -164,6 +187,35 @@ def divlen(repo, chk):
                     ok = True
             chk.ob('DIVLEN', fi, n, 'division by len(%s) happens only when %s is known to be non-empty' % (x, x), ok,
                    'a run that finds nothing left to do divides by zero', construct='div len ' + x)
+    # other sinks that need at least one page: a pool sized by the number of pages, constant indexing of the work lists
+    try:
+        _, comp, tasks, ids, imgs, _, _ = pf_common.roles(repo)
+    except AnalysisError:
+        ids = imgs = None
+
+    def nonempty_fact(node, x):
+        for t, pol, _ in cfg.facts_at(cfg.node_of(node)):
+            tt = ' '.join(src(t).split())
+            if pol and tt in (x, 'len(%s) > 0' % x, 'len(%s)' % x, 'len(%s) != 0' % x, 'len(%s) >= 1' % x):
+                return True
+            if not pol and tt in ('not ' + x, 'len(%s) == 0' % x):
+                return True
+        return False
+    for n in ast.walk(fi.node):
+        if isinstance(n, ast.Call) and (call_name(n) or '').split('.')[-1] in ('Pool', 'ThreadPool', 'ProcessPoolExecutor', 'ThreadPoolExecutor'):
+            size = [k.value for k in n.keywords if k.arg in ('processes', 'max_workers')] + list(n.args[:1])
+            for e in size:
+                lens = [c for c in ast.walk(e) if isinstance(c, ast.Call) and dotted(c.func) == 'len' and c.args and src(c.args[0]) in (ids, imgs, tasks if ids else None)]
+                in_min = any(isinstance(c, ast.Call) and dotted(c.func) in ('min', 'np.minimum') and any(l in list(ast.walk(c)) for l in lens) for c in ast.walk(e))
+                if lens:
+                    found += 1
+                    ok = not in_min or nonempty_fact(n, src(lens[0].args[0]))
+                    chk.ob('DIVLEN', fi, n, 'a worker pool sized by the number of pages left is created only when there is a page left (a pool of 0 workers raises)', ok,
+                           construct='pool size ' + ' '.join(src(e).split()))
+        if isinstance(n, ast.Subscript) and isinstance(n.ctx, ast.Load) and isinstance(n.value, ast.Name) and n.value.id in (ids, imgs) and isinstance(n.slice, (ast.Constant, ast.UnaryOp)):
+            found += 1
+            chk.ob('DIVLEN', fi, n, 'constant indexing of the work list happens only when it is known to be non-empty', nonempty_fact(n, n.value.id),
+                   construct='index ' + ' '.join(src(n).split()))
     # Computator: percentage uses ids_count, which is len(ids) >= 1 whenever the computator is called (called once per id)
     sample = ast.parse("def f(a, t):\n    print(t / len(a))\n").body[0]
     need(sum(1 for n in ast.walk(sample) if isinstance(n, ast.BinOp) and isinstance(n.op, ast.Div) and isinstance(n.right, ast.Call)) == 1,
